@@ -245,7 +245,7 @@ def clashing_names(seed=0):
     oz = SigmaZ()
     oz.name = "period"
     oe = ObservableEvaluator(3, [SigmaZ(), oz], num_samples=8, burn_in=1, steps=1)
-    st.fit(data, epochs=6, pos_batch_size=2, neg_batch_size=2, k=1, lr=0.05, callbacks=[me, oe])
+    st.fit(data, epochs=9, pos_batch_size=2, neg_batch_size=2, k=1, lr=0.05, callbacks=[me, oe])
     fails = []
     # every accessor of the evaluators against the raw records of this run
     try:
